@@ -29,6 +29,7 @@ def yaqlize(class_or_object=None, yaqlize_attributes=True,
                 whitelist=whitelist,
                 blacklist=blacklist,
                 attribute_remapping=attribute_remapping,
+                blacklist_remapped_attributes=blacklist_remapped_attributes,
             ))
         return something
     if class_or_object is None:
